@@ -10,6 +10,7 @@
 // Stage R also executes the ICMPv6 cases of the model (CaseIcmp): well-formed ICMPv6 messages - error types 1..4 and
 // others - that QUOTE a packet: the port of a configured service, a packet the local host really sent, a connection of
 // the sender that was admitted or refused before. They are judged by the same trace specification as ICMPv6 packets.
+// Stage D (history.go): delivery histories of one flow - recorded genuine frames delivered again, frames held back.
 package main
 
 import (
@@ -284,7 +285,7 @@ func main() { vf.Main("C06", "model_checking", run) }
 var nExt, nPrior int
 
 func run(c *vf.Ctx) {
-	c.Rule("M: TLC enumerates 265 configurations (none, every single service over 6 schemes x 4 ports x 5 access rules, 144 two-service combinations) x genuine packets (4 senders x 4 protocols x 5 ports), not-what-they-claim variants, established flows with and without isolation, ICMPv6 messages that quote a packet (error/other types x what the quote spells x what happened on the quoted connection before), outbound packets (source, 5 destination kinds, isolation): 18k cases with the allowed verdict. R: every configuration the real parser accepts installed in a real router; quick executes a seeded sample of the packet cases per configuration, thorough all; CheckInboundTrafficPolicy is also swept over protocols 0..255 x ports {0,1,p-1,p,p+1,65535}. T: observed verdicts judged by TLC. distinct = distinct (configuration, packet case)")
+	c.Rule("M: TLC enumerates 265 configurations (none, every single service over 6 schemes x 4 ports x 5 access rules, 144 two-service combinations) x genuine packets (4 senders x 4 protocols x 5 ports), not-what-they-claim variants, established flows with and without isolation, ICMPv6 messages that quote a packet (error/other types x what the quote spells x what happened on the quoted connection before), outbound packets (source, 5 destination kinds, isolation): 18k cases with the allowed verdict. R: every configuration the real parser accepts installed in a real router; quick executes a seeded sample of the packet cases per configuration, thorough all; CheckInboundTrafficPolicy is also swept over protocols 0..255 x ports {0,1,p-1,p,p+1,65535}. D: delivery histories of one flow per kind of admission (public / friends / listed service, established return flow, refused senders as a control) on a real router - recorded genuine frames delivered again at once, inside the 64-frame window, behind it and hundreds behind, frames held back, fresh frames in between; a frame handed on before is never handed on again, fresh frames keep being judged by the policy alone. T: observed verdicts judged by TLC. distinct = distinct (configuration, packet case)")
 	c.Assume("a packet of a flow the local host opened (mirrored 5-tuple, cached outbound verdict 'allowed') is admitted without a service - the established-flow reading of the property (DESIGN C06)", "IPv6 extension headers are not parsed by the code; ports are bytes 40..44")
 
 	mc, err := c.TLC("TrafficPolicy", "TrafficPolicy_MC.cfg", vf.TLCOpts{Workers: 1, Timeout: 10 * time.Minute, Heap: "8g"})
@@ -299,6 +300,7 @@ func run(c *vf.Ctx) {
 	byCfgIcmp := map[string][]act{} // ICMPv6 messages quoting a packet: sampled and executed apart from the packet cases
 	cfgOf := map[string]act{}
 	var order []string
+	var templates []act
 	nbad := 0
 	for _, e := range mc.Edges {
 		var a act
@@ -325,6 +327,9 @@ func run(c *vf.Ctx) {
 			continue
 		}
 		byCfg[k] = append(byCfg[k], a)
+		if a.Name == "in" && a.Variant == "ok" {
+			templates = append(templates, a) // genuine packets: the templates of the delivery histories (stage D)
+		}
 	}
 	sort.Strings(order)
 	// configurations that only the ICMPv6 cases use come last: the order (and with it the seeded sample) of the others stays what it was
@@ -521,6 +526,14 @@ func run(c *vf.Ctx) {
 	c.Stage("R", map[string]any{"configurations": len(order), "skipped_parser_rejected": skipped, "events": len(events), "icmp_quote_messages": nIcmp})
 	c.Logf("R: %d configurations, %d observations", len(order), len(events))
 
+	// ---- D: delivery histories of one admitted flow - recorded genuine frames delivered again at once, inside the
+	// window, after the sender has moved on by more than the window; frames held back; fresh frames in between. The
+	// events go to the same judge, behind the others (a rejection there leaves TLC only the histories to look at again).
+	tD := time.Now()
+	hevents := deliveryHistories(c, templates)
+	events = append(events, hevents...)
+	c.Stage("D", map[string]any{"events": len(hevents), "ms": time.Since(tD).Milliseconds()})
+
 	for len(events) > 0 {
 		rejectAt, inv, tres, err := c.TraceCheck("TrafficPolicy_Trace", "TrafficPolicy_Trace.cfg", events, vf.TLCOpts{Timeout: 30 * time.Minute, Heap: "12g"})
 		if err != nil {
@@ -533,10 +546,27 @@ func run(c *vf.Ctx) {
 		}
 		ev := events[rejectAt-1].(map[string]any)
 		var key, what string
+		var reproduce func() bool
 		switch ev["ev"] {
 		case "in":
 			if ev["panic"] == true {
 				key, what = vf.Key("panic", ev["variant"]), "the router worker panicked"
+			} else if ev["variant"] == "history" && ev["totun"] == true && ev["handed"] == true {
+				where := "inside the 64-frame window"
+				if b, _ := ev["behind"].(int); b > 64 {
+					where = "after the sender had moved on by more than the 64-frame window"
+				} else if b == 0 {
+					where = "at once"
+				}
+				key = vf.Key("history", "handed-on-again", where)
+				what = fmt.Sprintf("a recorded genuine traffic frame of an admitted sender, delivered again %s (%v frames behind the newest one delivered), was handed to the local interface a second time: the frame had been delivered and its packet handed on before, the session's replay protection refuses it - it did not come in a frame that unsealed under the sender's session, whatever its content", where, ev["behind"])
+				reproduce = func() bool { return reproduceHistory(templates, ev) }
+			} else if ev["variant"] == "history" && ev["totun"] == true {
+				key, what = vf.Key("history", "admitted", ev["flow"], ev["again"] != 0, ev["late"]), "in a delivery history a packet was handed to the local interface although the policy forbids it"
+				reproduce = func() bool { return reproduceHistory(templates, ev) }
+			} else if ev["variant"] == "history" {
+				key, what = vf.Key("history", "dropped", ev["flow"]), "in a delivery history a fresh frame (sealed after every frame delivered so far, never delivered before) of a sender a service (or an established flow) admits was dropped"
+				reproduce = func() bool { return reproduceHistory(templates, ev) }
 			} else if ev["totun"] == true && ev["variant"] == "icmp-quote" {
 				key, what = vf.Key("admitted", ev["variant"], ev["kind"], ev["hist"]), "an ICMPv6 message was handed to the local interface although no icmp6/ping6 service admits its sender and the local host never sent it an ICMPv6 packet (what the message quotes - the port of a tcp/udp service, a packet the local host sent, an admitted connection - is the sender's choice and admits nothing: a tcp service admits TCP, a udp service UDP)"
 			} else if ev["totun"] == true {
@@ -553,8 +583,25 @@ func run(c *vf.Ctx) {
 		case "policy":
 			key, what = vf.Key("policy", schemeOf(ev), ev["allowed"]), "CheckInboundTrafficPolicy disagrees with the documented meaning of the service"
 		}
-		c.Violation(key, fmt.Sprintf("%s: %v", what, ev), ev, nil)
+		c.Violation(key, fmt.Sprintf("%s: %v", what, ev), ev, reproduce)
 		events = events[rejectAt:]
+		if ev["variant"] == "history" {
+			// one report per class of delivery: a defect in this path is hit by every history, and every rejection costs
+			// a run of TLC
+			sig := func(e map[string]any) string {
+				b, _ := e["behind"].(int)
+				a, _ := e["again"].(int)
+				return fmt.Sprint(e["totun"], e["handed"], a > 0, e["late"], e["panic"], b > 64, b == 0)
+			}
+			rest := events[:0:0]
+			for _, x := range events {
+				if e, ok := x.(map[string]any); ok && e["variant"] == "history" && sig(e) == sig(ev) {
+					continue
+				}
+				rest = append(rest, x)
+			}
+			events = rest
+		}
 		if ev["variant"] == "icmp-quote" {
 			// one report per class of ICMPv6 message: TLC is not asked again about the messages of a class that has been
 			// reported (a defect in this path is hit by hundreds of them, and every rejection costs a run of TLC)
